@@ -117,3 +117,36 @@ def c01_scope(tier):
         seen.add(src)
         out.append((pid, src))
     return out
+
+
+def c10_scope(tier):
+    """Programs with repeated sub-expressions differing only in output type / output mode / operand
+    kind, folded constants consumed by several node kinds, and high fan-out (CSE, const-prop, MST)."""
+    H = 'Signal x = ("signal-A", 6);\nSignal y = ("signal-B", 4);\n'
+    P = []
+    P.append(("cse-same", H + "Signal r = (x * y) + 1;\nSignal q = (x * y) + 2;\n"))
+    P.append(("cse-proj", H + 'Signal r = ((x * y) | "signal-X") + 1;\nSignal q = (x * y) + 2;\n'))
+    P.append(("cse-proj2", H + 'Signal r = (x * 3) | "signal-X";\nSignal q = (x * 3) | "signal-Y";\n'))
+    P.append(("cse-mode", H + "Signal r = (x > 3) : y;\nSignal q = (x > 3) : 1;\nSignal p = (x > 3) : 7;\n"))
+    P.append(("cse-mode2", 'Signal x = ("signal-A", 6);\nSignal y = ("signal-A", 4);\nSignal r = (x > 3) : x;\nSignal q = (y > 3) : y;\n'))
+    P.append(("cse-copysrc", 'Signal c = ("signal-C", 1);\nSignal x = ("signal-A", 6);\nSignal y = ("signal-A", 9);\n'
+              'Signal r = ((c > 0) : x) + 0;\nSignal q = ((c > 0) : y) + 0;\n'))
+    P.append(("cse-cmp", H + "Signal r = (x > y) * 5;\nSignal q = (x > y) + (x < y);\nSignal p = (x >= y);\n"))
+    P.append(("cse-bundle-mode", 'Bundle b = { ("signal-A", 20), ("signal-B", 5) };\nBundle f1 = (b > 10) : b;\nBundle f2 = (b > 10) : 1;\n'))
+    P.append(("cse-bundle-op", 'Bundle b = { ("signal-A", 20), ("signal-B", 5) };\nBundle f1 = b * 2;\nBundle f2 = b * 2;\nBundle f3 = b + 2;\n'))
+    P.append(("fold-chain", 'Signal x = ("signal-A", 6);\nSignal r = x + (2 * 3) - (10 / 3);\nSignal q = x * (7 % 4) + (1 << 4);\n'))
+    P.append(("fold-neg", 'Signal x = ("signal-A", 6);\nSignal r = x + (-7 / 2);\nSignal q = x + (-7 % 3);\nSignal p = x + (7 / -2);\n'))
+    P.append(("fold-func", 'func f(Signal a, int n) { return a * n + (n / -3); }\nSignal x = ("signal-A", 6);\nSignal r = f(x, 7);\nSignal q = f(5, -7);\n'))
+    P.append(("fold-func2", 'func sh(Signal a, int n) { return a >> n; }\nSignal r = sh(-64, 2);\nSignal q = sh(1000, 3) + sh(-7, 1);\n'))
+    P.append(("fold-cond", 'Signal x = ("signal-A", 6);\nSignal r = (x > (2 + 3)) : (4 * 5);\nSignal q = ((1 + 1) < x) : x;\n'))
+    P.append(("fold-lamp", 'Signal x = ("signal-A", 6);\nEntity l = place("small-lamp", 0, 0);\nl.enable = x > (2 * 3);\nSignal r = x + 1;\n'))
+    fan = 'Signal x = ("signal-A", 6);\n' + "".join(f"Signal r{i} = x + {i + 1};\n" for i in range(6))
+    P.append(("fanout6", fan))
+    fan2 = H + "".join(f"Signal r{i} = (x * {i + 2}) + y;\n" for i in range(4))
+    P.append(("fanout-two-sources", fan2))
+    P.append(("diamond", H + "Signal t = x + 1;\nSignal u = t * 2;\nSignal v = t * 3;\nSignal r = u + v;\n"))
+    if tier != "quick":
+        for k in range(2, 9):
+            P.append((f"fan{k}", 'Signal x = ("signal-A", 6);\nSignal y = ("signal-A", 2);\n' + "".join(
+                f"Signal z{i} = x + y;\nSignal w{i} = z{i} * {i + 2};\n" for i in range(k))))
+    return P
